@@ -49,7 +49,11 @@ class Conv:
             elif op == 'mul':
                 r = self.el(args[0]) * self.el(args[1])
             elif op == 'div':
-                r = self.el(args[0]) * A.inv(self.el(args[1]))
+                den = self.el(args[1])
+                if A.iszero(den):
+                    r = A.fn('div_by_zero', self.el(args[0]))
+                else:
+                    r = self.el(args[0]) * A.inv(den)
             elif op == 'neg':
                 r = -self.el(args[0])
             elif op == 'sqrt':
@@ -403,6 +407,16 @@ def all_panic(run, S, name, rule='K5 out-of-range index panics'):
 def run_specs(run, S, h, custom=None):
     """dispatch the standard spec kinds"""
     for name, (spec, kw) in h.specs.items():
+        try:
+            _run_one(run, S, name, spec, kw, custom)
+        except Exception as ex:   # fail closed: an obligation the rule layer cannot evaluate is reported, never skipped
+            import traceback
+            run.ob('%s:%s:rule-error' % (run.prop, name), False, rule='rule evaluation', expected='rule evaluates',
+                   found='%s: %s' % (type(ex).__name__, ex), where=traceback.format_exc()[-600:])
+
+
+def _run_one(run, S, name, spec, kw, custom):
+    if True:
         kind = spec[0]
         if kind == 'value':
             check_value(run, S, name, spec[1], rule=kw.get('rule', 'K3 ring conformance'))
@@ -419,3 +433,48 @@ def run_specs(run, S, h, custom=None):
 def report_dropped(run, meta):
     for w, msg in meta.get('dropped', {}).items():
         run.ob('%s:%s:api-missing' % (run.prop, w), False, rule='api-present', expected='harness wrapper compiles against the current API', found=msg)
+
+
+# ---------------------------------------------------------------- guards
+APPROX = {'approx::abs_diff_eq::AbsDiffEq::abs_diff_eq': ('abs_diff', False), 'approx::abs_diff_eq::AbsDiffEq::abs_diff_ne': ('abs_diff', True),
+          'approx::relative_eq::RelativeEq::relative_eq': ('relative', False), 'approx::relative_eq::RelativeEq::relative_ne': ('relative', True),
+          'approx::ulps_eq::UlpsEq::ulps_eq': ('ulps', False), 'approx::ulps_eq::UlpsEq::ulps_ne': ('ulps', True)}
+DEFAULTS = {'approx::abs_diff_eq::AbsDiffEq::default_epsilon', 'approx::relative_eq::RelativeEq::default_max_relative', 'approx::ulps_eq::UlpsEq::default_max_ulps'}
+
+
+def parse_guard(S, cv, tid):
+    """Decode a boolean term: {'kind': 'eq'|'lt'|...|'abs_diff'|'relative'|'ulps'|'other', 'neg': bool, 'a': El, 'b': El,
+    'tols': [term ids], 'default_tols': bool, 'gargs': str}"""
+    t = S.terms[tid]
+    neg = False
+    while t[0] == 'a' and t[1] == 'not':
+        neg = not neg
+        tid = t[2][0]
+        t = S.terms[tid]
+    if t[0] != 'a':
+        return {'kind': 'other', 'neg': neg, 'text': S.show(tid)}
+    op, args = t[1], t[2]
+    if op in ('eq', 'ne', 'lt', 'le', 'gt', 'ge') and len(args) == 2:
+        if op == 'ne':
+            op, neg = 'eq', not neg
+        return {'kind': op, 'neg': neg, 'a': cv.el(args[0]), 'b': cv.el(args[1]), 'text': S.show(tid)}
+    if op == 'call':
+        name = S.terms[args[0]][1]
+        if name in APPROX:
+            kind, n2 = APPROX[name]
+            tols = args[4:]
+            dflt = True
+            for x in tols:
+                tt = S.terms[x]
+                if not (tt[0] == 'a' and tt[1] == 'call' and S.terms[tt[2][0]][1] in DEFAULTS and len(tt[2]) == 2):
+                    dflt = False
+            return {'kind': kind, 'neg': neg != n2, 'a': cv.el(args[2]), 'b': cv.el(args[3]), 'tols': list(tols), 'default_tols': dflt,
+                    'gargs': S.terms[args[1]][1], 'text': S.show(tid)}
+    return {'kind': 'other', 'neg': neg, 'text': S.show(tid)}
+
+
+def is_zero_test(g, x):
+    """guard g compares x with 0 (either order), by exact or approximate equality"""
+    if g['kind'] not in ('eq', 'abs_diff', 'relative', 'ulps'):
+        return False
+    return (A.eq(g['a'], x) and A.eq(g['b'], ZERO)) or (A.eq(g['b'], x) and A.eq(g['a'], ZERO))
